@@ -1458,6 +1458,12 @@ impl Actor {
             // Activate miner cron
             needs_cron = !state.deadline_cron_active;
             state.deadline_cron_active = true;
+            if needs_cron {
+                // The recorded deadline went out of date while the cron was inactive.
+                let dl_info = state.deadline_info(rt.policy(), curr_epoch);
+                state.proving_period_start = dl_info.period_start;
+                state.current_deadline = dl_info.index;
+            }
             Ok(())
         })?;
         burn_funds(rt, fee_to_burn)?;
@@ -1890,6 +1896,12 @@ impl Actor {
             }
             let needs_cron = !state.deadline_cron_active;
             state.deadline_cron_active = true;
+            if needs_cron {
+                // The recorded deadline went out of date while the cron was inactive.
+                let dl_info = state.deadline_info(rt.policy(), curr_epoch);
+                state.proving_period_start = dl_info.period_start;
+                state.current_deadline = dl_info.index;
+            }
 
             state.allocate_sector_numbers(
                 store,
